@@ -45,6 +45,7 @@ static int g_opidx;
 static const char *g_opname = "";
 static int g_oph = -1;
 static int64_t g_opt0;
+static long g_oparg;
 
 // ------------------------------------------------------------------ children
 typedef struct {
@@ -354,8 +355,8 @@ static void on_hang(const char *what)
 {
   g_hang = 1;
   if (g_in_sinkcalls) fprintf(L, "]}\n");
-  fprintf(L, "{\"i\":%d,\"op\":\"%s\",\"h\":%d,\"t0\":%lld,\"hang\":\"%s\",\"vt\":%lld,",
-          g_opidx, g_opname, g_oph, (long long) g_opt0, what, (long long) w_vnow);
+  fprintf(L, "{\"i\":%d,\"op\":\"%s\",\"h\":%d,\"t0\":%lld,\"hang\":\"%s\",\"vt\":%lld,\"to\":%ld,",
+          g_opidx, g_opname, g_oph, (long long) g_opt0, what, (long long) w_vnow, g_oparg);
   jtrace();
   fprintf(L, "}\n");
   finish_case();
@@ -746,6 +747,40 @@ static void do_start(int h)
   op_end_fmt(r, "\"hello\":%d,\"pid\":%d", hello, c->pid);
 }
 
+static void op_read(int h, int stream, long size, int probe)
+{
+  child_t *c = &C[h];
+  uint8_t *buf = malloc((size_t) size);
+  op_begin("RD", h);
+  int r = reproc_read(c->p, (REPROC_STREAM) stream, buf, (size_t) size);
+  long long bad = -1;
+  uint64_t off = (stream == 1 || stream == 2) ? c->rdoff[stream] : 0;
+  if (r > 0 && (stream == 1 || stream == 2)) {
+    if ((long) r > size) bad = -3;
+    else bad = verify(c, stream, off, buf, (size_t) r);
+    c->rdoff[stream] += (uint64_t) r;
+  }
+  op_end_fmt(r, "\"st\":%d,\"size\":%ld,\"off\":%llu,\"bad\":%lld,\"probe\":%d", stream, size,
+             (unsigned long long) off, bad, probe);
+  free(buf);
+}
+
+static void op_write(int h, long size, int probe)
+{
+  child_t *c = &C[h];
+  uint8_t *buf = NULL;
+  if (size >= 0) {
+    buf = malloc((size_t) size);
+    for (long i = 0; i < size; i++) buf[i] = poscode(0, c->wroff + (uint64_t) i);
+  }
+  op_begin("WR", h);
+  int r = reproc_write(c->p, buf, size < 0 ? (size_t) (-size - 1) : (size_t) size);
+  if (r > 0) c->wroff += (uint64_t) r;
+  op_end_fmt(r, "\"size\":%ld,\"woff\":%llu,\"probe\":%d", size, (unsigned long long) c->wroff,
+             probe);
+  free(buf);
+}
+
 static void run_script(void)
 {
   const char *t;
@@ -808,6 +843,7 @@ static void run_script(void)
     } else if (!strcmp(t, "W")) {
       int h = (int) nextlong(0);
       int to = (int) nextlong(0);
+      g_oparg = to;
       op_begin("W", h);
       int r = reproc_wait(C[h].p, to);
       op_end_fmt(r, "\"to\":%d", to);
@@ -832,41 +868,19 @@ static void run_script(void)
       int h = (int) nextlong(0);
       int stream = (int) nextlong(1);
       long size = nextlong(0);
-      child_t *c = &C[h];
-      uint8_t *buf = malloc((size_t) size);
-      op_begin("RD", h);
-      int r = reproc_read(c->p, (REPROC_STREAM) stream, buf, (size_t) size);
-      long long bad = -1;
-      uint64_t off = (stream == 1 || stream == 2) ? c->rdoff[stream] : 0;
-      if (r > 0 && (stream == 1 || stream == 2)) {
-        if ((long) r > size) bad = -3;
-        else bad = verify(c, stream, off, buf, (size_t) r);
-        c->rdoff[stream] += (uint64_t) r;
-      }
-      op_end_fmt(r, "\"st\":%d,\"size\":%ld,\"off\":%llu,\"bad\":%lld", stream, size,
-                 (unsigned long long) off, bad);
-      free(buf);
+      op_read(h, stream, size, 0);
     } else if (!strcmp(t, "WR")) {
       int h = (int) nextlong(0);
       long size = nextlong(0);
-      child_t *c = &C[h];
-      uint8_t *buf = NULL;
-      if (size >= 0) {
-        buf = malloc((size_t) size);
-        for (long i = 0; i < size; i++) buf[i] = poscode(0, c->wroff + (uint64_t) i);
-      }
-      op_begin("WR", h);
-      int r = reproc_write(c->p, buf, size < 0 ? (size_t) (-size - 1) : (size_t) size);
-      if (r > 0) c->wroff += (uint64_t) r;
-      op_end_fmt(r, "\"size\":%ld,\"woff\":%llu", size, (unsigned long long) c->wroff);
-      free(buf);
+      op_write(h, size, 0);
     } else if (!strcmp(t, "CL")) {
       int h = (int) nextlong(0);
       int stream = (int) nextlong(0);
       op_begin("CL", h);
       int r = reproc_close(C[h].p, (REPROC_STREAM) stream);
       op_end_fmt(r, "\"st\":%d", stream);
-    } else if (!strcmp(t, "PL")) {
+    } else if (!strcmp(t, "PL") || !strcmp(t, "PLP")) {
+      int probe = t[2] == 'P';
       int to = (int) nextlong(0);
       int n = (int) nextlong(0);
       reproc_event_source src[8];
@@ -889,6 +903,23 @@ static void run_script(void)
         strcat(ev, b);
       }
       op_end_fmt(r, "\"to\":%d,\"src\":[%s]", to, ev);
+      if (probe && r > 0) {
+        // a reported event promises that the matching call will not block or time out
+        int probed[NH] = { 0 };
+        for (int i = 0; i < n && i < 8; i++) {
+          if (hs[i] < 0 || (src[i].events & ~31)) continue;
+          int e = src[i].events & ~probed[hs[i]];  // one probe per (handle, event)
+          probed[hs[i]] |= src[i].events;
+          if (e & REPROC_EVENT_OUT) op_read(hs[i], 1, 1, 1);
+          if (e & REPROC_EVENT_ERR) op_read(hs[i], 2, 1, 1);
+          if (e & REPROC_EVENT_IN) op_write(hs[i], 1, 1);
+          if (e & REPROC_EVENT_EXIT) {
+            op_begin("W", hs[i]);
+            int q = reproc_wait(C[hs[i]].p, 0);
+            op_end_fmt(q, "\"to\":0,\"probe\":1");
+          }
+        }
+      }
     } else if (!strcmp(t, "DR") || !strcmp(t, "RN")) {
       // DR h <outsink> <errsink>     sink: d | s<prefixlen> | c | c<k>:<ret>
       int h = (int) nextlong(0);
